@@ -126,6 +126,12 @@ class ObjInterp(fd.Interp):
             from fractions import Fraction
             ty = n.get('ty') or ''
             return Fraction(a) / Fraction(b) if ('double' in ty or 'float' in ty) else int(a) // int(b)
+        if k == 'FloatingLiteral':
+            from fractions import Fraction
+            try:
+                return Fraction(str(n['v']))            # exact rationals: 0.5 is 1/2, so results compare exactly
+            except Exception:
+                return float(n['v'])
         if k == 'CXXDefaultArgExpr':
             return ('default',)
         if k == 'StringLiteral':
